@@ -15,15 +15,25 @@ import types
 import z3
 
 
-class Unsupported(Exception):
+class _Poison:
+    """Engine exceptions mark the running context as dead when they are constructed, so that stand-ins
+    for blocking primitives (engine.vthreads) stop blocking while the exception unwinds real code."""
+
+    def __init__(self, *a):
+        super().__init__(*a)
+        if CTX is not None:
+            CTX.dead = True
+
+
+class Unsupported(_Poison, Exception):
     """The code did something with a symbolic value that the proxies do not model."""
 
 
-class _Infeasible(BaseException):
+class _Infeasible(_Poison, BaseException):
     pass
 
 
-class PathBudget(Exception):
+class PathBudget(_Poison, Exception):
     pass
 
 
@@ -77,7 +87,7 @@ class PathState:
             plan.pop()
         if not plan:
             return False
-        plan[-1] = [not plan[-1][0], True, plan[-1][2], plan[-1][3], None, []]
+        plan[-1] = [not plan[-1][0], True, plan[-1][2], plan[-1][3], None, [], len(plan[-1]) > 6 and plan[-1][6]]
         return True
 
 
@@ -101,6 +111,7 @@ class _Ctx:
         self.queries = 0
         self.solver_s = 0.0
         self.trace = []  # free-form event log the harness/stubs may append to
+        self.dead = False  # set when an engine exception was raised on this path
         self.call_idx = 0
         if st.calls is not None and st.plan:
             # everything strictly before the flipped (last) decision is replayed from the record
@@ -170,8 +181,11 @@ class _Ctx:
         self.solver.add(c)
         self.st.frames += 1
 
-    def branch(self, cond, payload=None, known_sat=False):
-        """cond: z3 BoolRef, SBool (possibly lazy) or a thunk returning a BoolRef"""
+    def branch(self, cond, payload=None, known_sat=False, free=False):
+        """cond: z3 BoolRef, SBool (possibly lazy) or a thunk returning a BoolRef.
+        free=True: the caller guarantees that both outcomes are feasible (a fresh choice variable)."""
+        if self.dead:  # an engine exception is unwinding real code (finally blocks): take no more decisions
+            raise _Infeasible()
         st = self.st
         ci = self.call_idx
         self.call_idx += 1
@@ -194,18 +208,23 @@ class _Ctx:
         if self.pos < len(self.plan):
             val = self.plan[self.pos][0]
             c = cond if val else z3.Not(cond)
-            if self.pos == len(self.plan) - 1 and self.plan[self.pos][1]:
-                if not self._feasible(c):  # freshly flipped decision
+            e = self.plan[self.pos]
+            if self.pos == len(self.plan) - 1 and e[1] and not (len(e) > 6 and e[6]):
+                if not self._feasible(c):  # freshly flipped decision whose other side was not pre-checked
                     raise _Infeasible()
-            self.plan[self.pos][3] = ci
+            e[3] = ci
         else:
-            if known_sat or self._feasible(cond):
+            if free:
+                val, other = True, True
+            elif known_sat or self._feasible(cond):
                 val = True
+                other = self._feasible(z3.Not(cond))   # decided now: saves a whole re-execution when one-sided
             elif self._feasible(z3.Not(cond)):
-                val = False
+                val, other = False, False
             else:
                 raise _Infeasible()
-            self.plan.append([val, False, payload, ci, None, []])
+            # entry: [value, flipped (= no alternative left), payload, call index, constraint, assumes, other side pre-checked]
+            self.plan.append([val, not other, payload, ci, None, [], True])
             c = cond if val else z3.Not(cond)
         self.pos += 1
         if st.calls is not None:
@@ -217,6 +236,8 @@ class _Ctx:
         """Fork over the feasible values of an integer term (list index, range bound, hash ...).
         The value tried at each plan position is recorded so that re-executions repeat it; while the
         shared prefix is replayed no z3 term is built at all."""
+        if self.dead:
+            raise _Infeasible()
         st = self.st
         t = None
         for _ in range(limit):
@@ -272,7 +293,7 @@ CTX: _Ctx | None = None
 DEADLINE: float | None = None  # wall-clock limit of the running check (set by engine.common)
 
 
-class TimeBudget(Exception):
+class TimeBudget(_Poison, Exception):
     """The check's wall-clock budget is exhausted (=> inconclusive, never success)."""
 
 
